@@ -1,4 +1,5 @@
 import AndaVerif.Proofs.ObjStoreHistory
+import AndaVerif.Proofs.ObjStoreConcRead
 /-
 C07 — Store wrappers behave as a conforming object store with real CAS.
 
@@ -176,6 +177,52 @@ theorem precond_spec (o : GetOpts) (cur : Option Tok) (lm : Nat) :
 example : rfcPrecond { ifMatch := some (.tags [.foreign 1]), ifUnmodifiedSince := some 0 } (some (.foreign 1)) 5 = none := by decide
 example : rfcPrecond { ifUnmodifiedSince := some 0 } (some (.foreign 1)) 5 = some .precond := by decide
 example : rfcPrecond { ifMatch := some .star, ifNoneMatch := some (.tags [.foreign 1]) } (some (.foreign 1)) 5 = some .notModified := by decide
+
+/-- **cond_read_sound_sched.** Interleaving model (`Model/ObjStoreConc.lean`): any number of `get_opts`
+calls (get / head / ranged get with any combination of `if_match` / `if_none_match` lists and `*` /
+date conditions; each call = resolve → check → fetch payload → on a vanished payload re-resolve →
+**re-check** → fetch, every step atomic, the first resolve possibly answered from the metadata cache)
+racing any number of writers (put / multipart / copy / delete; rename = copy + delete) and the garbage
+collector, under **every schedule**: whatever a finished call answers is `NotFound`, or the
+precondition error `check_get_preconditions` gives for a commit of the key, or the serving of ONE
+commit of the key that passed `check_get_preconditions` — metadata from that commit point, bytes from
+that commit's own payload (`servedOut`). `hist` is the ghost list of all commits of the run. That the
+retry evaluates the conditions again on the re-resolved document is read from the source
+(`getRecheckInRetry`, both wrappers). -/
+theorem cond_read_sound_sched (c0 : Conc.Cfg) (hc : Conc.CInv c0) (hh : Conc.HInv c0) (hr : Conc.RInv c0)
+    (schedule : List Conc.Choice) (i : Nat) (t : Conc.Rd) (r : Out)
+    (hi : (Conc.runSchedule c0 schedule).rs[i]? = some t) (hdone : t.pc = .done r) :
+    Conc.SoundOut (Conc.runSchedule c0 schedule).hist t r := by
+  have := (Conc.run_read_inv hc hh hr schedule).2.2 i t hi
+  unfold Conc.RdOK at this
+  rw [hdone] at this
+  exact this
+
+/-- ... from every wrapper at rest: backend invariant (every state of every history, `reachable_inv`),
+payload paths holding payloads, any calls about to start, readers whose cache entry is the current
+commit point or empty. -/
+theorem cond_read_sound_sched_start (fl : Wrapper) (be : Backend) (n : Nat) (hbe : BInv be n)
+    (hblobs : ∀ (p : BPath) (e : BEnt), Conc.isPayloadPath p = true → aget be p = some e → ∃ b, e.obj = .blob b)
+    (calls : List Conc.Wr) (hf : ∀ t ∈ calls, t.Fresh) (readers : List Conc.Rd)
+    (hrd : ∀ t ∈ readers, t.pc = .init ∧ ∀ d, t.cached = some d → docAt be t.k = some d)
+    (schedule : List Conc.Choice) (i : Nat) (t : Conc.Rd) (r : Out)
+    (hi : (Conc.runSchedule (Conc.Cfg.startRW fl be n calls readers) schedule).rs[i]? = some t) (hdone : t.pc = .done r) :
+    Conc.SoundOut (Conc.runSchedule (Conc.Cfg.startRW fl be n calls readers) schedule).hist t r := by
+  obtain ⟨hc, hh, hr⟩ := Conc.startRW_inv fl hbe hblobs calls hf readers hrd
+  exact cond_read_sound_sched _ hc hh hr schedule i t r hi hdone
+
+/-- non-vacuity: `get k if_match=<token of v1>`; the reader resolves v1 and passes the check, an
+overwrite commits v2 and reclaims v1's generation, the reader's payload fetch finds nothing,
+re-resolves v2, re-checks: `Precondition` — not v2's bytes. -/
+def condStart : Conc.Cfg :=
+  Conc.Cfg.startRW .metaStore w1.be w1.nextId [{ k := [0], data := [9] }]
+    [{ k := [0], o := { ifMatch := some (.tags [.put 1 [1, 2, 3]]) } }]
+def condSchedule : List Conc.Choice :=
+  [.r 0, .r 0, .tick, .w 0 .mint, .w 0 .track, .w 0 .enter, .w 0 .payload, .w 0 .commit, .w 0 .reclaim, .w 0 .untrack,
+   .r 0, .r 0, .r 0]
+example : ((Conc.runSchedule condStart condSchedule).rs[0]?).map (·.pc) = some (.done (.err .precond)) := by decide
+example : ((Conc.runSchedule condStart (condSchedule.take 11)).rs[0]?).map (·.pc) =
+    some (.retry {}) := by decide
 
 /-- **one_view_per_commit.** In any state related to a reference state, every answer that carries
 object metadata — `get`/`head`/ranged `get`, `list`, `list_with_offset`, `list_with_delimiter` —
